@@ -29,7 +29,7 @@ Lemma add_into_spec : forall contrib buf r, add_into buf contrib = Some r ->
 Proof.
   induction contrib as [|x t IH]; intros buf r H.
   - assert (Hr : r = buf) by (destruct buf; cbn [add_into] in H; congruence). subst r.
-    cbn [length]. repeat split; try lia. intros i Hi; lia.
+    cbn [length]. repeat split; try lia.
   - destruct buf as [|b bt]; cbn [add_into] in H; [discriminate|].
     destruct (add_into bt t) as [r0|] eqn:E; [|discriminate]. injection H as <-.
     destruct (IH _ _ E) as (H1 & H2 & H3 & H4). cbn [length]. repeat split; try lia.
@@ -95,11 +95,15 @@ Proof.
   - destruct (kloop _ c m a true s []) as [[acc s1]|] eqn:E; [|discriminate].
     destruct (kloop _ c m a false s1 acc) as [[acc2 s2]|] eqn:E2; [|discriminate]. intros H; injection H as <- <-.
     apply kloop_length in E. apply kloop_length in E2. rewrite rev_append_rev, app_nil_r, rev_length, E2, E. cbn [length].
-    rewrite <- Nat.add_assoc, <- Nat.mul_add_distr_r, <- Z2Nat.inj_add by lia. f_equal. f_equal. lia.
+    set (cnt := Z.max 0 count). set (nac := Z.max 0 (cnt - Z.max 0 ramp)).
+    replace (Z.to_nat cnt) with (Z.to_nat nac + Z.to_nat (cnt - nac))%nat by lia.
+    rewrite Nat.mul_add_distr_r. lia.
   - destruct (kloop _ c m a true s []) as [[acc s1]|] eqn:E; [|discriminate].
     destruct (kloop _ c m a false s1 acc) as [[acc2 s2]|] eqn:E2; [|discriminate]. intros H; injection H as <- <-.
     apply kloop_length in E. apply kloop_length in E2. rewrite rev_append_rev, app_nil_r, rev_length, E2, E. cbn [length].
-    rewrite <- Nat.add_assoc, <- Nat.mul_add_distr_r, <- Z2Nat.inj_add by lia. f_equal. f_equal. lia.
+    set (cnt := Z.max 0 count). set (nac := Z.max 0 (cnt - Z.max 0 ramp)).
+    replace (Z.to_nat cnt) with (Z.to_nat nac + Z.to_nat (cnt - nac))%nat by lia.
+    rewrite Nat.mul_add_distr_r. lia.
 Qed.
 
 Theorem kernel_touches_only_its_frames : forall c m a count ramp s buf r f, kernel c m a count ramp s buf = Some (r, f) ->
@@ -154,7 +158,7 @@ Proof.
     assert (Hr1 : 0 <= s_frac s1 < 65536) by (rewrite Hf1; apply Z.mod_pos_bound; lia).
     destruct (IH _ _ _ _ _ _ _ _ Hr1 H) as (Hp & Hfr). rewrite Hp, Hfr, Hp1, Hf1.
     replace (s_frac s + Z.of_nat (S n) * a_step a) with ((s_frac s + a_step a) + Z.of_nat n * a_step a) by lia.
-    rewrite mod_chain. split; [|reflexivity]. rewrite <- div_chain. ring.
+    rewrite mod_chain. split; [|reflexivity]. rewrite <- (div_chain (s_frac s + a_step a) (Z.of_nat n * a_step a)). ring.
 Qed.
 
 (* ---------- 6. the mixer's segment rule ---------- *)
@@ -166,3 +170,279 @@ Proof. intros P F S E k HF Hk H. generalize dependent (k * S). intros X H. lia. 
 Lemma reverse_positions_above_start : forall P F S St k, 0 <= F < 65536 -> 0 <= k -> St * 65536 <= P * 65536 + F + k * S ->
   St <= P + (F + k * S) / 65536.
 Proof. intros P F S St k HF Hk H. generalize dependent (k * S). intros X H. lia. Qed.
+
+(* ---------- 3. reads stay inside the window ---------- *)
+
+Definition win_ok (c : kcfg) (m : smem) (p : Z) : Prop :=
+  forall i, p + reach_lo c <= i <= p + reach_hi c -> rd m i <> None.
+
+Lemma lut_some (l : list Z) f : length l = 1024%nat -> 0 <= f < 1024 -> exists v, zget l f = Some v.
+Proof. intros Hl Hf. apply zget_some. unfold zlen. rewrite Hl. lia. Qed.
+
+Lemma spline_index_range f : 0 <= f < 65536 -> 0 <= Z.shiftr f 6 < 1024.
+Proof. intros H. rewrite Z.shiftr_div_pow2 by lia. change (2 ^ 6) with 64. lia. Qed.
+
+Ltac rd_some Hw :=
+  match goal with
+  | |- context [rd ?m ?i] =>
+    let E := fresh "E" in let v := fresh "v" in
+    destruct (rd m i) as [v|] eqn:E; [| exfalso; apply (Hw i); [lia | exact E]]
+  end.
+
+Lemma fetch_ok c m s off : 0 <= s_frac s < 65536 -> win_ok c m (s_pos s) ->
+  (off = 0 \/ (k_sin c = true /\ off = 1)) -> fetch c m s off <> None.
+Proof.
+  intros Hf Hw Hoff.
+  assert (Hc : chn_of c = 1 /\ off = 0 \/ chn_of c = 2 /\ (off = 0 \/ off = 1)).
+  { unfold chn_of. destruct (k_sin c); destruct Hoff as [->|[Hs ->]]; try discriminate; lia. }
+  revert Hw. unfold fetch, win_ok, reach_lo, reach_hi. cbv zeta. destruct (k_interp c); intros Hw.
+  - rd_some Hw. discriminate.
+  - rd_some Hw. rd_some Hw. discriminate.
+  - rd_some Hw. rd_some Hw. rd_some Hw. rd_some Hw.
+    pose proof (spline_index_range _ Hf) as H6.
+    destruct (lut_some _ _ lut0_len H6) as [c0 L0]. destruct (lut_some _ _ lut1_len H6) as [c1 L1].
+    destruct (lut_some _ _ lut2_len H6) as [c2 L2]. destruct (lut_some _ _ lut3_len H6) as [c3 L3].
+    rewrite L0, L1, L2, L3. discriminate.
+Qed.
+
+Lemma kstep_ok c m a ac s : 0 <= s_frac s < 65536 -> win_ok c m (s_pos s) -> kstep c m a ac s <> None.
+Proof.
+  intros Hf Hw. unfold kstep.
+  destruct (fetch c m s 0) as [l0|] eqn:E0; [| exfalso; apply (fetch_ok c m s 0 Hf Hw); [left; reflexivity | exact E0]].
+  destruct (k_sin c) eqn:Es.
+  - destruct (fetch c m s 1) as [r0|] eqn:E1; [| exfalso; apply (fetch_ok c m s 1 Hf Hw); [right; split; [exact Es | reflexivity] | exact E1]].
+    destruct (if k_filter c then _ else _) as [[l l1'] l2'].
+    destruct (if k_filter c && true then _ else _) as [[r r1'] r2']. discriminate.
+  - destruct (if k_filter c then _ else _) as [[l l1'] l2'].
+    destruct (if k_filter c && false then _ else _) as [[r r1'] r2']. discriminate.
+Qed.
+
+Lemma kloop_ok : forall n c m a ac s acc, 0 <= s_frac s < 65536 ->
+  (forall k, 0 <= k < Z.of_nat n -> win_ok c m (s_pos s + chn_of c * ((s_frac s + k * a_step a) / 65536))) ->
+  kloop n c m a ac s acc <> None.
+Proof.
+  induction n as [|n IH]; intros c m a ac s acc Hf Hw; cbn [kloop]; [discriminate|].
+  assert (Hw0 : win_ok c m (s_pos s)).
+  { pose proof (Hw 0 ltac:(lia)) as H0. rewrite Z.mul_0_l, Z.add_0_r, Z.div_small, Z.mul_0_r, Z.add_0_r in H0 by lia. exact H0. }
+  destruct (kstep c m a ac s) as [[outs s1]|] eqn:E; [| exfalso; apply (kstep_ok c m a ac s Hf Hw0); exact E].
+  destruct (kstep_position _ _ _ _ _ _ _ E) as (Hp1 & Hf1).
+  apply IH.
+  - rewrite Hf1. apply Z.mod_pos_bound. lia.
+  - intros k Hk.
+    replace (s_pos s1 + chn_of c * ((s_frac s1 + k * a_step a) / 65536))
+      with (s_pos s + chn_of c * ((s_frac s + (k + 1) * a_step a) / 65536)); [apply Hw; lia|].
+    rewrite Hp1, Hf1. replace (s_frac s + (k + 1) * a_step a) with ((s_frac s + a_step a) + k * a_step a) by lia.
+    rewrite <- (div_chain (s_frac s + a_step a) (k * a_step a)). ring.
+Qed.
+
+Lemma contributions_two_loops c m a count ramp s : k_interp c <> Nearest ->
+  contributions c m a count ramp s =
+  match kloop (Z.to_nat (Z.max 0 (Z.max 0 count - Z.max 0 ramp))) c m a true s [] with
+  | None => None
+  | Some (acc, s1) =>
+    match kloop (Z.to_nat (Z.max 0 count - Z.max 0 (Z.max 0 count - Z.max 0 ramp))) c m a false s1 acc with
+    | None => None | Some (acc2, s2) => Some (rev_append acc2 [], s2) end
+  end.
+Proof. intros H. unfold contributions. destruct (k_interp c); [congruence|reflexivity|reflexivity]. Qed.
+
+Lemma contributions_nearest c m a count ramp s : k_interp c = Nearest ->
+  contributions c m a count ramp s =
+  match kloop (Z.to_nat (Z.max 0 count)) c m a false (advance (chn_of c) 32768 s) [] with
+  | None => None | Some (acc, s') => Some (rev_append acc [], s') end.
+Proof. intros H. unfold contributions. rewrite H. reflexivity. Qed.
+
+Lemma contributions_ok c m a count ramp s :
+  0 <= s_frac s < 65536 ->
+  (forall k, 0 <= k < count -> win_ok c m (pos_at c a s k)) ->
+  contributions c m a count ramp s <> None.
+Proof.
+  intros Hf Hw. destruct (k_interp c) eqn:Ei.
+  - rewrite (contributions_nearest _ _ _ _ _ _ Ei).
+    destruct (kloop _ _ _ _ _ _ _) as [[acc s1]|] eqn:E; [discriminate|]. exfalso. revert E. apply kloop_ok.
+    + apply advance_frac_range.
+    + intros k Hk. pose proof (Hw k ltac:(lia)) as H. unfold pos_at, start_state in H. rewrite Ei in H. exact H.
+  - assert (Hn : k_interp c <> Nearest) by congruence. rewrite (contributions_two_loops _ _ _ _ _ _ Hn).
+    assert (Hs0 : start_state c s = s) by (unfold start_state; rewrite Ei; reflexivity).
+    set (cnt := Z.max 0 count). set (nac := Z.max 0 (cnt - Z.max 0 ramp)).
+    destruct (kloop (Z.to_nat nac) c m a true s []) as [[acc s1]|] eqn:E.
+    + destruct (kloop_position _ _ _ _ _ _ _ _ _ Hf E) as (Hp1 & Hf1). rewrite Z2Nat.id in Hp1, Hf1 by lia.
+      destruct (kloop _ c m a false s1 acc) as [[acc2 s2]|] eqn:E2; [discriminate|]. exfalso. revert E2. apply kloop_ok.
+      * rewrite Hf1. apply Z.mod_pos_bound. lia.
+      * intros k Hk. pose proof (Hw (nac + k) ltac:(lia)) as H. unfold pos_at in H. rewrite Hs0 in H.
+        change (2 ^ C_SMIX_SHIFT) with 65536 in H.
+        replace (s_pos s1 + chn_of c * ((s_frac s1 + k * a_step a) / 65536))
+          with (s_pos s + chn_of c * ((s_frac s + (nac + k) * a_step a) / 65536)); [exact H|].
+        rewrite Hp1, Hf1. replace (s_frac s + (nac + k) * a_step a) with ((s_frac s + nac * a_step a) + k * a_step a) by lia.
+        rewrite <- (div_chain (s_frac s + nac * a_step a) (k * a_step a)). ring.
+    + exfalso. revert E. apply kloop_ok; [exact Hf|].
+      intros k Hk. pose proof (Hw k ltac:(lia)) as H. unfold pos_at in H. rewrite Hs0 in H. exact H.
+  - assert (Hn : k_interp c <> Nearest) by congruence. rewrite (contributions_two_loops _ _ _ _ _ _ Hn).
+    assert (Hs0 : start_state c s = s) by (unfold start_state; rewrite Ei; reflexivity).
+    set (cnt := Z.max 0 count). set (nac := Z.max 0 (cnt - Z.max 0 ramp)).
+    destruct (kloop (Z.to_nat nac) c m a true s []) as [[acc s1]|] eqn:E.
+    + destruct (kloop_position _ _ _ _ _ _ _ _ _ Hf E) as (Hp1 & Hf1). rewrite Z2Nat.id in Hp1, Hf1 by lia.
+      destruct (kloop _ c m a false s1 acc) as [[acc2 s2]|] eqn:E2; [discriminate|]. exfalso. revert E2. apply kloop_ok.
+      * rewrite Hf1. apply Z.mod_pos_bound. lia.
+      * intros k Hk. pose proof (Hw (nac + k) ltac:(lia)) as H. unfold pos_at in H. rewrite Hs0 in H.
+        change (2 ^ C_SMIX_SHIFT) with 65536 in H.
+        replace (s_pos s1 + chn_of c * ((s_frac s1 + k * a_step a) / 65536))
+          with (s_pos s + chn_of c * ((s_frac s + (nac + k) * a_step a) / 65536)); [exact H|].
+        rewrite Hp1, Hf1. replace (s_frac s + (nac + k) * a_step a) with ((s_frac s + nac * a_step a) + k * a_step a) by lia.
+        rewrite <- (div_chain (s_frac s + nac * a_step a) (k * a_step a)). ring.
+    + exfalso. revert E. apply kloop_ok; [exact Hf|].
+      intros k Hk. pose proof (Hw k ltac:(lia)) as H. unfold pos_at in H. rewrite Hs0 in H. exact H.
+Qed.
+
+Theorem kernel_reads_in_window : forall c m a count ramp s buf lo hi,
+  0 <= s_frac s < 65536 ->
+  (forall i, lo <= i <= hi -> rd m i <> None) ->
+  (forall k, 0 <= k < count -> lo <= pos_at c a s k + reach_lo c /\ pos_at c a s k + reach_hi c <= hi) ->
+  (Z.to_nat (Z.max 0 count) * (if k_sout c then 2 else 1) <= length buf)%nat ->
+  kernel c m a count ramp s buf <> None.
+Proof.
+  intros c m a count ramp s buf lo hi Hf Hrd Hpos Hbuf. unfold kernel.
+  destruct (contributions c m a count ramp s) as [[contrib s']|] eqn:E.
+  - destruct (add_into buf contrib) as [b|] eqn:E1; [discriminate|]. exfalso. revert E1. apply add_into_some.
+    rewrite (contributions_length _ _ _ _ _ _ _ _ E). unfold ochn. exact Hbuf.
+  - exfalso. revert E. apply contributions_ok; [exact Hf|].
+    intros k Hk i Hi. apply Hrd. destruct (Hpos k Hk) as [H1 H2]. lia.
+Qed.
+
+(* ---------- 4. gains ---------- *)
+
+Lemma kstep_zero c m a s outs s' : a_vl a = 0 -> a_vr a = 0 -> kstep c m a false s = Some (outs, s') ->
+  Forall (fun x => x = 0) outs.
+Proof.
+  intros Hl Hr. unfold kstep. destruct (fetch c m s 0) as [l0|]; [|discriminate].
+  destruct (if k_sin c then fetch c m s 1 else Some l0) as [r0|]; [|discriminate].
+  destruct (if k_filter c then _ else _) as [[l l1'] l2'].
+  destruct (if k_filter c && k_sin c then _ else _) as [[r r1'] r2'].
+  intros H. injection H as Ho _. subst outs. rewrite Hl, Hr. cbv iota.
+  destruct (k_sout c); repeat constructor; apply Z.mul_0_r.
+Qed.
+
+Lemma kloop_zero : forall n c m a s acc acc' s', a_vl a = 0 -> a_vr a = 0 -> Forall (fun x => x = 0) acc ->
+  kloop n c m a false s acc = Some (acc', s') -> Forall (fun x => x = 0) acc'.
+Proof.
+  induction n as [|n IH]; intros c m a s acc acc' s' Hl Hr Hacc H; cbn [kloop] in H.
+  - injection H as <- <-. exact Hacc.
+  - destruct (kstep c m a false s) as [[outs s1]|] eqn:E; [|discriminate].
+    apply (IH _ _ _ _ _ _ _ Hl Hr) in H; [exact H|].
+    rewrite rev_append_rev. apply Forall_app. split; [|exact Hacc]. apply Forall_rev. exact (kstep_zero _ _ _ _ _ _ Hl Hr E).
+Qed.
+
+Theorem kernel_zero_gain_is_silent : forall c m a count ramp s contrib s', count <= ramp \/ k_interp c = Nearest -> 0 <= ramp ->
+  a_vl a = 0 -> a_vr a = 0 -> contributions c m a count ramp s = Some (contrib, s') -> Forall (fun x => x = 0) contrib.
+Proof.
+  intros c m a count ramp s contrib s' Hc Hramp Hl Hr H.
+  assert (Hcase : k_interp c = Nearest \/ (k_interp c <> Nearest /\ count <= ramp)).
+  { destruct Hc as [Hc|Hc]; [|left; exact Hc]. destruct (k_interp c) eqn:Ei; [left; reflexivity | right; split; [discriminate|exact Hc] ..]. }
+  destruct Hcase as [Hn|[Hn Hcr]].
+  - rewrite (contributions_nearest _ _ _ _ _ _ Hn) in H.
+    destruct (kloop _ _ _ _ _ _ _) as [[acc s1]|] eqn:E; [|discriminate]. injection H as <- <-.
+    rewrite rev_append_rev, app_nil_r. apply Forall_rev. exact (kloop_zero _ _ _ _ _ _ _ _ Hl Hr (Forall_nil _) E).
+  - rewrite (contributions_two_loops _ _ _ _ _ _ Hn) in H.
+    replace (Z.to_nat (Z.max 0 (Z.max 0 count - Z.max 0 ramp))) with 0%nat in H by lia. cbn [kloop] in H.
+    destruct (kloop _ _ _ _ _ _ _) as [[acc s1]|] eqn:E; [|discriminate]. injection H as <- <-.
+    rewrite rev_append_rev, app_nil_r. apply Forall_rev. exact (kloop_zero _ _ _ _ _ _ _ _ Hl Hr (Forall_nil _) E).
+Qed.
+
+Definition swap_a (a : kargs) : kargs :=
+  {| a_vl := a_vr a; a_vr := a_vl a; a_step := a_step a; a_dl := a_dr a; a_dr := a_dl a;
+     a_a0 := a_a0 a; a_b0 := a_b0 a; a_b1 := a_b1 a |}.
+Definition swap_s (s : kstate) : kstate :=
+  {| s_pos := s_pos s; s_frac := s_frac s; s_ovl := s_ovr s; s_ovr := s_ovl s;
+     s_l1 := s_l1 s; s_l2 := s_l2 s; s_r1 := s_r1 s; s_r2 := s_r2 s |}.
+Fixpoint swap_pairs (l : list Z) : list Z :=
+  match l with
+  | x :: y :: t => y :: x :: swap_pairs t
+  | _ => l
+  end.
+
+Lemma list_ind2 (P : list Z -> Prop) : P [] -> (forall x, P [x]) -> (forall x y t, P t -> P (x :: y :: t)) -> forall l, P l.
+Proof.
+  intros H0 H1 H2. assert (H : forall l, P l /\ forall x, P (x :: l)).
+  { induction l as [|y t [IH1 IH2]]; split; auto. }
+  intros l. apply H.
+Qed.
+
+Lemma swap_pairs_app l1 l2 : Nat.even (length l1) = true -> swap_pairs (l1 ++ l2) = swap_pairs l1 ++ swap_pairs l2.
+Proof.
+  induction l1 as [|x|x y t IH] using list_ind2; intros H.
+  - reflexivity.
+  - discriminate.
+  - cbn [length Nat.even] in H. cbn [app swap_pairs]. rewrite (IH H). reflexivity.
+Qed.
+
+Lemma swap_pairs_rev l : Nat.even (length l) = true -> swap_pairs (rev l) = rev (swap_pairs l).
+Proof.
+  induction l as [|x|x y t IH] using list_ind2; intros H.
+  - reflexivity.
+  - discriminate.
+  - cbn [length Nat.even] in H. cbn [rev swap_pairs]. rewrite <- !app_assoc. cbn [app].
+    rewrite swap_pairs_app by (rewrite rev_length; exact H). rewrite (IH H). reflexivity.
+Qed.
+
+Lemma kstep_swap c m a ac s outs s' : k_sin c = false -> k_sout c = true ->
+  kstep c m a ac s = Some (outs, s') -> kstep c m (swap_a a) ac (swap_s s) = Some (swap_pairs outs, swap_s s').
+Proof.
+  intros Hsin Hsout. unfold kstep. change (fetch c m (swap_s s) 0) with (fetch c m s 0). rewrite Hsin, Hsout.
+  destruct (fetch c m s 0) as [l0|]; [|discriminate]. unfold filt. cbv zeta.
+  destruct (k_filter c); destruct ac; cbn [andb]; cbv iota; intros H; injection H as <- <-; reflexivity.
+Qed.
+
+Lemma kloop_swap : forall n c m a ac s acc acc' s', k_sin c = false -> k_sout c = true ->
+  kloop n c m a ac s acc = Some (acc', s') ->
+  kloop n c m (swap_a a) ac (swap_s s) (swap_pairs acc) = Some (swap_pairs acc', swap_s s').
+Proof.
+  induction n as [|n IH]; intros c m a ac s acc acc' s' Hsin Hsout H; cbn [kloop] in *.
+  - injection H as <- <-. reflexivity.
+  - destruct (kstep c m a ac s) as [[outs s1]|] eqn:E; [|discriminate].
+    rewrite (kstep_swap _ _ _ _ _ _ _ Hsin Hsout E).
+    destruct (kstep_inv _ _ _ _ _ _ _ E) as (s0 & _ & _ & _ & Hlen). unfold ochn in Hlen. rewrite Hsout in Hlen.
+    destruct outs as [|x [|y [|z t]]]; try discriminate Hlen.
+    apply (IH _ _ _ _ _ _ _ _ Hsin Hsout) in H. exact H.
+Qed.
+
+Lemma kloop_even n c m a ac s acc acc' s' : k_sout c = true -> Nat.even (length acc) = true ->
+  kloop n c m a ac s acc = Some (acc', s') -> Nat.even (length acc') = true.
+Proof.
+  intros Hsout He H. apply kloop_length in H. unfold ochn in H. rewrite Hsout in H.
+  apply Nat.even_spec in He. destruct He as [k Hk]. apply Nat.even_spec. exists (k + n)%nat. lia.
+Qed.
+
+Theorem kernel_swap_gains : forall c m a count ramp s contrib s', k_sin c = false -> k_sout c = true ->
+  contributions c m a count ramp s = Some (contrib, s') ->
+  contributions c m (swap_a a) count ramp (swap_s s) = Some (swap_pairs contrib, swap_s s').
+Proof.
+  intros c m a count ramp s contrib s' Hsin Hsout H.
+  assert (Hcase : k_interp c = Nearest \/ k_interp c <> Nearest) by (destruct (k_interp c); [left; reflexivity | right; discriminate ..]).
+  destruct Hcase as [Hn|Hn].
+  - rewrite (contributions_nearest _ _ _ _ _ _ Hn) in *.
+    change (advance (chn_of c) 32768 (swap_s s)) with (swap_s (advance (chn_of c) 32768 s)).
+    destruct (kloop _ c m a false _ []) as [[acc s1]|] eqn:E; [|discriminate]. injection H as <- <-.
+    pose proof (kloop_even _ _ _ _ _ _ _ _ _ Hsout eq_refl E) as Hev.
+    apply (kloop_swap _ _ _ _ _ _ _ _ _ Hsin Hsout) in E. cbn [swap_pairs] in E. rewrite E.
+    rewrite !rev_append_rev, !app_nil_r, swap_pairs_rev by exact Hev. reflexivity.
+  - rewrite (contributions_two_loops _ _ _ _ _ _ Hn) in *.
+    destruct (kloop _ c m a true s []) as [[acc s1]|] eqn:E; [|discriminate].
+    destruct (kloop _ c m a false s1 acc) as [[acc2 s2]|] eqn:E2; [|discriminate]. injection H as <- <-.
+    pose proof (kloop_even _ _ _ _ _ _ _ _ _ Hsout eq_refl E) as Hev.
+    pose proof (kloop_even _ _ _ _ _ _ _ _ _ Hsout Hev E2) as Hev2.
+    apply (kloop_swap _ _ _ _ _ _ _ _ _ Hsin Hsout) in E. cbn [swap_pairs] in E. rewrite E.
+    apply (kloop_swap _ _ _ _ _ _ _ _ _ Hsin Hsout) in E2. rewrite E2.
+    rewrite !rev_append_rev, !app_nil_r, swap_pairs_rev by exact Hev2. reflexivity.
+Qed.
+
+(* ---------- 5. value ranges ---------- *)
+
+Lemma linear_fetch_between : forall c m s off v v0 v1, k_interp c = Linear -> 0 <= s_frac s < 65536 ->
+  fetch c m s off = Some v -> rd m (s_pos s + off) = Some v0 -> rd m (s_pos s + off + chn_of c) = Some v1 ->
+  let sc := fun x => if k_wide c then x else x * 256 in
+  Z.min (sc v0) (sc v1) <= v <= Z.max (sc v0) (sc v1).
+Proof.
+  intros c m s off v v0 v1 Hi Hf H E0 E1 sc. unfold fetch in H. rewrite Hi in H. cbv zeta in H. rewrite E0, E1 in H.
+  injection H as <-. fold (sc v0). fold (sc v1). generalize (sc v0) (sc v1). clear. intros x y.
+  change (C_SMIX_SHIFT - 1) with 15. rewrite !Z.shiftr_div_pow2 by lia. change (2 ^ 1) with 2. change (2 ^ 15) with 32768.
+  revert Hf.
+Abort.
